@@ -47,13 +47,19 @@ func famC10(g *Gen, o *Out, n int, thorough bool) {
 		if codec == "sorted" {
 			wopts = append(wopts, carv2.UseIndexCodec(multicodec.CarIndexSorted))
 		}
+		z := 0
+		if g.pick(3) == 0 { // a null-padded source, read with ZeroLengthSectionAsEOF
+			x = append(append([]byte{}, x...), make([]byte, []int{1, 2, 5, 64}[g.pick(4)])...)
+			wopts = append(wopts, carv2.ZeroLengthSectionAsEOF(true))
+			z = 1
+		}
 		var wrapped bytes.Buffer
 		err := carv2.WrapV1(bytes.NewReader(x), &wrapped, wopts...)
 		res := "r=" + classifyIdx(err)
 		if err == nil {
 			res = "r=ok out=" + hexOr(wrapped.Bytes())
 		}
-		o.Line(fmt.Sprintf("xform op=wrap codec=%s sid=%d mcs=1048576 roots=%s blocks=%s in=%s", codec, b2i(sid), rootsArg(roots),
+		o.Line(fmt.Sprintf("xform op=wrap codec=%s sid=%d z=%d mcs=1048576 roots=%s blocks=%s in=%s", codec, b2i(sid), z, rootsArg(roots),
 			blocksStr(bs), hex.EncodeToString(x)), res)
 		o.Count("wrap/" + codec)
 		// --- ExtractV1File over several CARv2 shapes and destination states
